@@ -260,10 +260,12 @@ def std_stages(tier, seed, battery, closed=("split", "long"), kinds_random=None,
             ("uint32", "ptr"), ("alpha/string", "string"), ("float64", "rich"), ("int16", "bytes"), ("alpha/bytes", "ptr"), ("uint64", "string")):
         st.append(Stage("gc", k, "random", size, battery, vt=vt, n=(2 if q else 6), len=(60 if q else 150)))
     # lengths and depths around 255 / 256 (closed), around 65535 / 65536 (random histories, no dumps)
-    st.append(Stage("model", "alpha/string", "huge", size, battery, cap=(3000 if q else None)))
-    st.append(Stage("model", "alpha/bytes", "huge2", size, battery))
+    # (keys of 300 bytes make the model's own all-arguments invariants slow: on these universes TLC enumerates the
+    # transitions and checks size and shape; the real trees are judged by the traces as everywhere)
+    st.append(Stage("model", "alpha/string", "huge", size, battery, cap=(3000 if q else 20000), invs=["SizeOK", "WFOK"]))
+    st.append(Stage("model", "alpha/bytes", "huge2", size, battery, invs=["SizeOK", "WFOK"]))
     st.append(Stage("random", "compound/u8+str", "giant", size, battery, n=(2 if q else 6), len=(24 if q else 60), batevery=3, dumpevery=100000))
-    st.append(Stage("model", "compound/u16+str", "huge2", size, battery))
+    st.append(Stage("model", "compound/u16+str", "huge2", size, battery, invs=["SizeOK", "WFOK"]))
     # the closures test one step after the shortest history of every state; what a collapse or split leaves behind shows in
     # LATER steps: random histories over the same universes
     for k, u in (("alpha/string", "huge2"), ("alpha/bytes", "huge")):
